@@ -1,5 +1,6 @@
 (* Model constants against the regenerated source facts (coq/Facts/Facts_c18.v).  A fact srcfacts could not
    recognise is None and imposes nothing ("compared only"); a recognised fact must agree. *)
+From Coq Require Import String.
 From Icv Require Import Base.Tac Perm.PmModel Facts.Facts_c18.
 Local Open Scope Z_scope.
 
@@ -10,10 +11,21 @@ Definition pm_modify_prefix : pm_str := [111;98;106;101;99;116;115;47;109;111;10
 Definition pm_delete_prefix : pm_str := [111;98;106;101;99;116;115;47;100;101;108;101;116;101;47].
 Definition pm_actions_prefix : pm_str := [97;99;116;105;111;110;115;47].
 
+(* the DSL name of a namespace variable *)
+Definition pm_scope_name (v : pm_scope) : string :=
+  match v with
+  | PmScObj => "obj" | PmScHost => "host" | PmScService => "service"
+  | PmScNav PmNCheckCommand => "check_command" | PmScNav PmNCheckPeriod => "check_period"
+  | PmScNav PmNEventCommand => "event_command" | PmScNav PmNCommandEndpoint => "command_endpoint"
+  end%string.
+Definition pm_navs_ok (f : option (list string)) (t : pm_type) : Prop :=
+  match f with Some l => l = map pm_scope_name (pm_nav_vars t) | None => True end.
+
 Lemma pm_source_facts :
   pm_prefix_ok f_pm_query_prefix pm_query_prefix /\ pm_guard_ok f_pm_query_guard /\
   pm_prefix_ok f_pm_modify_prefix pm_modify_prefix /\ pm_guard_ok f_pm_modify_guard /\
   pm_prefix_ok f_pm_delete_prefix pm_delete_prefix /\ pm_guard_ok f_pm_delete_guard /\
   pm_prefix_ok f_pm_actions_prefix pm_actions_prefix /\ pm_guard_ok f_pm_actions_guard /\
-  pm_prefix_ok f_pm_join_prefix pm_query_prefix /\ pm_guard_ok f_pm_join_guard.
+  pm_prefix_ok f_pm_join_prefix pm_query_prefix /\ pm_guard_ok f_pm_join_guard /\
+  pm_navs_ok f_pm_nav_host PmHost /\ pm_navs_ok f_pm_nav_service PmService /\ pm_guard_ok f_pm_bind_guard.
 Proof. cbv. repeat split. Qed.
